@@ -584,6 +584,12 @@ FINDINGS = _build() + [
          pattern=dict(check="fixpoint", fmt="docstring", style={"in": ["google", "numpydoc"]}, field="parse", default_kinds="emptystr", observed="raises ValueError", typ_classes="int", round=2),
          what="[R-trigger-type-recasts-default] 'integer' in the description makes the emitter write the type int; round 2 casts the empty-string default with int('') and raises ValueError",
          site="cdd/docstring/utils/parse_utils.py:parse_adhoc_doc_for_typ + cdd/shared/defaults_utils.py:_parse_out_default_and_doc", example="{'alpha': {'typ': 'str', 'doc': 'an integer count', 'default': ''}} through docstring-google twice"),
+    dict(id="C08-wrapped-type-line-indent-grows", property="C08",
+         pattern=dict(check="fixpoint", fmt="function", style="rest", field="typ", expected="Literal", observed="changed_to_Literal", round=2),
+         what="function without annotations, ReST: a ':type:' value wider than the wrap width is wrapped; the reader keeps the line break and the continuation indent inside the type string, "
+              "and the emitter indents that continuation again on every round (collapsing the line break in _set_param_values is pinned by test_to_function_with_docstring_types)",
+         site="cdd/shared/docstring_parsers.py:_set_param_values / cdd/shared/docstring_utils.py:emit_param_str (indent_all_but_first)",
+         example="{'alpha': {'typ': \"Literal['member_one', ..., 'member_eight']\", 'doc': 'the value'}} through function (type_annotations=False) twice"),
     dict(id="C08-listof-trigger-respaces-hyphenated-default", property="C08",
          pattern=dict(check="fixpoint", fmt={"in": ["class", "pydantic"]}, field="default", expected="str", observed="str", typ_class="list", round=2),
          what="[R-class-listof-trigger] 'list of' in the description turns the type into list; the string default is then re-rendered as code on round 2 ('x-y' -> 'x - y', 'a b' -> code)",
